@@ -222,16 +222,16 @@ def run_C02(ctx):
     q = ctx.quick
     vlib.model_check(ctx, "MCHamtBuild", cfg_hamtbuild(0), name="MCHamtBuild")
     vlib.model_check(ctx, "MCHamtRead", cfg_hamtread(2), name="MCHamtRead")
-    t = [dgen(ctx, b, "sets", FAN_T, ["-orders", 3 if q else 60]),
-         dgen(ctx, b, "random", None, ["-count", 60 if q else 4000]),
+    t = [dgen(ctx, b, "sets", FAN_T, ["-orders", 3 if q else 90]),
+         dgen(ctx, b, "random", None, ["-count", 60 if q else 12000]),
          dgen(ctx, b, "longnames", FAN_T),
          dgen(ctx, b, "numeric", FAN_T),
-         dgen(ctx, b, "big", None, ["-count", 4 if q else 120])]
+         dgen(ctx, b, "big", None, ["-count", 4 if q else 300])]
     ctx.exhaustive = True
     decide(ctx, b, "TraceDir", DIR_INVS["C02"] + ["Inv_C02_Big"], t)
     # bucket choice: both real bit-slicing helpers (verif-tagged exports) against the MSB-first slice, every (offset, width)
     vlib.model_check(ctx, "MCHashBits", open(vlib.os.path.join(vlib.SPEC, "MCHashBits.cfg")).read(), name="MCHashBits")
-    ht = [gen(ctx, b, "hashbits", ["hash-gen", "-count", 8 if q else 200, "-seed", ctx.seed])]
+    ht = [gen(ctx, b, "hashbits", ["hash-gen", "-count", 8 if q else 1000, "-seed", ctx.seed])]
     decide(ctx, b, "TraceHash", ["Inv_NoPanic", "Inv_C02_HashReader", "Inv_C02_HashBuilder"], ht)
 
 
@@ -253,7 +253,7 @@ def run_C08(ctx):
          dgen(ctx, b, "longnames", FAN_T),
          dgen(ctx, b, "numeric", FAN_T),
          dgen(ctx, b, "hist", FAN_T, ["-cases", casefile]),
-         dgen(ctx, b, "random", None, ["-count", 40 if q else 600])]
+         dgen(ctx, b, "random", None, ["-count", 40 if q else 3000])]
     ctx.exhaustive = True
     decide(ctx, b, "TraceDir", DIR_INVS["C08"], t)
 
@@ -303,7 +303,7 @@ def run_mixed(pid, file_gens, dir_gens):
             targets, invs = PATH_PART[pid]
             pt = [path_traces(ctx, b, targets, ["FALSE"], True, 4 if q else 1)]
             if pid == "C06":
-                pt.append(path_traces(ctx, b, ["entity", "preload"], ["FALSE"], "consume", 24 if q else 3))
+                pt.append(path_traces(ctx, b, ["entity", "preload"], ["FALSE"], "consume", 24 if q else 1))
                 invs = invs + ["Inv_C06_Entity"]
             decide(ctx, b, "TracePath", invs, pt)
     return run
@@ -333,12 +333,12 @@ def run_C07(ctx):
     # non-vacuity / documentation of F1: the pre-fix collapse rule is rejected by the same invariant
     vlib.model_check(ctx, "FileBuild", cfg_filebuild(8, [2, 3], collapse="always", invs=["Inv_C07_Shape"], props=()),
                      name="FileBuild_collapse_always", expect_violation="Inv_C07_Shape")
-    t = [bgen(ctx, b, "files", ["-maxn", 24 if q else 90, "-wmax", 4 if q else 7]),
-         bgen(ctx, b, "dedup", ["-maxn", 5 if q else 6, "-wmax", 2 if q else 3]),
-         bgen(ctx, b, "random", ["-count", 30 if q else 500]),
+    t = [bgen(ctx, b, "files", ["-maxn", 24 if q else 160, "-wmax", 4 if q else 8]),
+         bgen(ctx, b, "dedup", ["-maxn", 5 if q else 7, "-wmax", 2 if q else 3]),
+         bgen(ctx, b, "random", ["-count", 30 if q else 3000]),
          bgen(ctx, b, "wide", ["-maxn", 400 if q else 40000]),
          bgen(ctx, b, "deep", ["-maxn", 300 if q else 3000]),
-         bgen(ctx, b, "cdc", ["-count", 150 if q else 3000]),
+         bgen(ctx, b, "cdc", ["-count", 150 if q else 12000]),
          bgen(ctx, b, "chunkers", [])]
     ctx.exhaustive = True
     decide(ctx, b, "TraceBuild", BUILD_INVS["C07"], t, extras=["Inv_X_TrickleShape"])
@@ -348,15 +348,15 @@ def run_C10(ctx):
     b = vlib.build_harness()
     q = ctx.quick
     vlib.model_check(ctx, "MCHamtBuild", cfg_hamtbuild(0), name="MCHamtBuild")
-    t = [bgen(ctx, b, "dirs", ["-fanouts", FAN_T, "-orders", 4 if q else 24, "-repeat", 3 if q else 20]),
-         bgen(ctx, b, "frag", ["-maxn", 7 if q else 10, "-count", 10 if q else 200]),
+    t = [bgen(ctx, b, "dirs", ["-fanouts", FAN_T, "-orders", 4 if q else 60, "-repeat", 3 if q else 40]),
+         bgen(ctx, b, "frag", ["-maxn", 7 if q else 12, "-count", 10 if q else 800]),
          bgen(ctx, b, "misc", []),
          bgen(ctx, b, "mixdir", ["-repeat", 3 if q else 12]),
-         bgen(ctx, b, "hashers", ["-orders", 6 if q else 24, "-repeat", 3 if q else 10]),
-         bgen(ctx, b, "files", ["-maxn", 6 if q else 12, "-wmax", 3, "-repeat", 2]),
+         bgen(ctx, b, "hashers", ["-orders", 6 if q else 60, "-repeat", 3 if q else 20]),
+         bgen(ctx, b, "files", ["-maxn", 6 if q else 24, "-wmax", 3 if q else 4, "-repeat", 2]),
          # recursive imports: repeated, from another place on disk, with the root spelled as a relative path
-         bgen(ctx, b, "trees", ["-count", 25 if q else 300]),
-         bgen(ctx, b, "random", ["-count", 10 if q else 100])]
+         bgen(ctx, b, "trees", ["-count", 25 if q else 1000]),
+         bgen(ctx, b, "random", ["-count", 10 if q else 400])]
     ctx.exhaustive = True
     decide(ctx, b, "TraceBuild", BUILD_INVS["C10"], t)
 
@@ -365,12 +365,12 @@ def run_C11(ctx):
     b = vlib.build_harness()
     q = ctx.quick
     vlib.model_check(ctx, "FileBuild", cfg_filebuild(16 if q else 40, [2, 3, 4], invs=["Inv_C11_Sizes"], props=()), name="FileBuild_C11")
-    t = [bgen(ctx, b, "files", ["-maxn", 16 if q else 60, "-wmax", 4 if q else 6]),
+    t = [bgen(ctx, b, "files", ["-maxn", 16 if q else 120, "-wmax", 4 if q else 8]),
          bgen(ctx, b, "dedup", ["-maxn", 5 if q else 6, "-wmax", 3]),
          bgen(ctx, b, "dirs", ["-fanouts", FAN_T, "-orders", 1, "-repeat", 0]),
-         bgen(ctx, b, "trees", ["-count", 12 if q else 150]),
+         bgen(ctx, b, "trees", ["-count", 12 if q else 800]),
          bgen(ctx, b, "misc", []),
-         bgen(ctx, b, "random", ["-count", 25 if q else 400]),
+         bgen(ctx, b, "random", ["-count", 25 if q else 2000]),
          bgen(ctx, b, "threshold", []),
          bgen(ctx, b, "quicktrees", []),
          bgen(ctx, b, "chunkers", [])]
@@ -384,9 +384,9 @@ def run_C16(ctx):
     vlib.model_check(ctx, "FileBuild", cfg_filebuild(12 if q else 30, [2, 3, 4], invs=["Inv_C16_NoDangling", "Inv_C16_Result"]),
                      name="FileBuild_C16")
     vlib.model_check(ctx, "MCHamtBuild", cfg_hamtbuild(3 if q else 6), name="MCHamtBuild_faults")
-    t = [bgen(ctx, b, "files", ["-maxn", 10 if q else 30, "-wmax", 3 if q else 4, "-faults"]),
+    t = [bgen(ctx, b, "files", ["-maxn", 10 if q else 40, "-wmax", 3 if q else 4, "-faults"]),
          bgen(ctx, b, "dirs", ["-fanouts", "8,64,512" if q else FAN_T, "-orders", 1, "-repeat", 2, "-faults"]),
-         bgen(ctx, b, "trees", ["-count", 10 if q else 100, "-faults"]),
+         bgen(ctx, b, "trees", ["-count", 10 if q else 400, "-faults"]),
          bgen(ctx, b, "mixdir", ["-faults", "-repeat", 0, "-maxn", 12]),
          bgen(ctx, b, "quicktrees", []),
          bgen(ctx, b, "misc", [])]
@@ -463,22 +463,34 @@ def run_C14(ctx):
     b = vlib.build_harness()
     vlib.model_check(ctx, "Reify", open(vlib.os.path.join(vlib.SPEC, "Reify.cfg")).read(), name="Reify")
     t = [hgen(ctx, b, "reify"), hgen(ctx, b, "file", pairs=not ctx.quick), hgen(ctx, b, "dir"), hgen(ctx, b, "hamt", pairs=not ctx.quick)]
+    if not ctx.quick:
+        # three defects at a time: the dispatch and the substrate must not depend on what else is wrong with the node
+        t += [gen(ctx, b, "hostile_hamt3", ["hostile-gen", "-what", "hamt", "-triples"]),
+              gen(ctx, b, "hostile_file3", ["hostile-gen", "-what", "file", "-triples"])]
     ctx.exhaustive = True
     decide(ctx, b, "TraceHostile", ["Inv_NoPanic", "Inv_C14_Typed_T", "Inv_C14_Substrate"], t,
            extras=["Inv_X_ADLBytes", "Inv_X_ADLBytesLength", "Inv_X_ADLMap"])
+
+
+HOSTILE_CFG = ("SPECIFICATION Spec\nCONSTANTS\n  MaxChildLinks = %d\n  MaxRootLinks = %d\n  Digits <- MCDigits\n"
+               "INVARIANTS Inv_X_FoundIsYielded Inv_X_LengthIsPairs Inv_X_FailedLengthHasError Inv_X_Total\nCHECK_DEADLOCK FALSE\n")
 
 
 def run_C13(ctx):
     b = vlib.build_harness()
     q = ctx.quick
     vlib.model_check(ctx, "Reify", open(vlib.os.path.join(vlib.SPEC, "Reify.cfg")).read(), name="Reify")
+    # beyond the property: the predictive transcription of the sharded-directory reader is total and self-consistent
+    # on every two-block table of a small domain (quick ~60 k tables, thorough ~3 M)
+    vlib.model_check(ctx, "MCHostile", HOSTILE_CFG % ((1, 1) if q else (1, 2)), name="MCHostile")
     vlib.model_check(ctx, "Codec", cfg_codec(1, 0, False, ["none", "packed1"], MUTS_ALL, export=False), name="Codec_malformed")
     t = [hgen(ctx, b, "reify"), hgen(ctx, b, "hamt"), hgen(ctx, b, "file"), hgen(ctx, b, "dir")]
     if not q:
         # three defects at a time
         t += [gen(ctx, b, "hostile_hamt3", ["hostile-gen", "-what", "hamt", "-triples"]),
               gen(ctx, b, "hostile_file3", ["hostile-gen", "-what", "file", "-triples"])]
-    decide(ctx, b, "TraceHostile", ["Inv_NoPanic", "Inv_C13_Reify", "Inv_C13_Op"], t)
+    decide(ctx, b, "TraceHostile", ["Inv_NoPanic", "Inv_C13_Reify", "Inv_C13_Op"], t,
+           extras=["Inv_X_HamtReify", "Inv_X_HamtLookup", "Inv_X_HamtLength", "Inv_X_HamtIter"])
     # the three decoders on arbitrary bytes: every truncation / bit flips of every TLC-generated stream, random bytes
     ct = codec_cases(ctx, b, q, fuzzevery=1 if not q else 4)
     ct.append(gen(ctx, b, "codecx", ["codec-gen", "-count", 2000 if q else 100000, "-seed", ctx.seed]))
@@ -494,7 +506,7 @@ def run_C18(ctx):
     q = ctx.quick
     vlib.model_check(ctx, "Import", open(vlib.os.path.join(vlib.SPEC, "Import.cfg")).read(), name="Import")
     t = [gen(ctx, b, "import_enum", ["import-gen", "-what", "enum"]),
-         gen(ctx, b, "import_random", ["import-gen", "-what", "random", "-count", 40 if q else 600, "-seed", ctx.seed]),
+         gen(ctx, b, "import_random", ["import-gen", "-what", "random", "-count", 40 if q else 5000, "-seed", ctx.seed]),
          gen(ctx, b, "import_wide", ["import-gen", "-what", "wide"]),
          gen(ctx, b, "import_special", ["import-gen", "-what", "special"])]
     ctx.exhaustive = True
@@ -508,7 +520,7 @@ def run_C19(ctx):
     # non-vacuity / documentation of F9: a generator that may repeat a sibling name violates SiblingsOK
     vlib.model_check(ctx, "Fixture", open(vlib.os.path.join(vlib.SPEC, "Fixture.cfg")).read().replace("AllowDup = FALSE", "AllowDup = TRUE"),
                      name="Fixture_dup_names", expect_violation="Inv_C19_Siblings")
-    t = [gen(ctx, b, "fixtures", ["fixture-gen", "-count", 4 if q else 60, "-seed", ctx.seed])]
+    t = [gen(ctx, b, "fixtures", ["fixture-gen", "-count", 12 if q else 400, "-seed", ctx.seed])]
     decide(ctx, b, "TraceFixture", ["Inv_NoPanic", "Inv_Harness_Walk", "Inv_C19_Same", "Inv_C19_Siblings", "Inv_C19_Paths"], t)
 
 
@@ -668,11 +680,11 @@ RULE_DIR = ("cases are (builder, fanout, mined 6-name universe, entry subset, in
             "distinct = distinct case ids")
 RULE_MIX = RULE_FILE + " | " + RULE_DIR
 
-F_RANGE = ("range", ["-maxn", "8", "-wmax", "3"], ["-maxn", "14", "-wmax", "4"])
-F_SEQ = ("seq", ["-maxn", "8", "-wmax", "3"], ["-maxn", "24", "-wmax", "4"])
+F_RANGE = ("range", ["-maxn", "8", "-wmax", "3"], ["-maxn", "18", "-wmax", "4"])
+F_SEQ = ("seq", ["-maxn", "8", "-wmax", "3"], ["-maxn", "30", "-wmax", "4"])
 F_WRITERS = ("writers", ["-maxn", "6", "-wmax", "3"], ["-maxn", "12", "-wmax", "4"])
-F_FAULT = ("fault", ["-maxn", "8", "-wmax", "3"], ["-maxn", "16", "-wmax", "4"])
-F_PRELOAD = ("preload", ["-maxn", "9", "-wmax", "4"], ["-maxn", "20", "-wmax", "4"])
+F_FAULT = ("fault", ["-maxn", "8", "-wmax", "3"], ["-maxn", "20", "-wmax", "4"])
+F_PRELOAD = ("preload", ["-maxn", "9", "-wmax", "4"], ["-maxn", "32", "-wmax", "4"])
 F_PRELOAD_NOBS = ("preload", ["-maxn", "7", "-wmax", "3", "-writer", "own-nobs"], ["-maxn", "14", "-wmax", "4", "-writer", "own-nobs"])
 F_PRELOAD_MIXED = ("preload", ["-maxn", "7", "-wmax", "3", "-writer", "own-mixed"], ["-maxn", "14", "-wmax", "4", "-writer", "own-mixed"])
 F_PRELOAD_MTIME = ("preload", ["-maxn", "6", "-wmax", "3", "-writer", "own-mtime"], ["-maxn", "12", "-wmax", "4", "-writer", "own-mtime"])
